@@ -55,9 +55,11 @@ type Job struct {
 	Name       string          `json:"name,omitempty"`
 	DeadlineMs int             `json:"deadlineMs"` // how long Stop/Drain may take
 	Attempt    int             `json:"attempt"`
+	MaxMs      int             `json:"maxMs,omitempty"`    // the parent's watchdog for long-running jobs (default 3 x deadline + 60 s)
 	Beh        *lisBeh         `json:"beh,omitempty"`      // kind replay
 	Scenario   *Scenario       `json:"scenario,omitempty"` // kind proc
 	Free       *FreeSpec       `json:"free,omitempty"`     // kind free
+	Race       *RaceSpec       `json:"race,omitempty"`     // kind race
 	Burst      *BurstSpec      `json:"burst,omitempty"`    // kind burst
 	Raw        json.RawMessage `json:"-"`
 }
